@@ -73,6 +73,8 @@ winwit = z3.Function("winwit", Obj, I, I, Obj, I, I)
 propf = z3.Function("propf", Obj, Obj, Obj)         # schema.props.get(name): registry.get(name, Nil)
 all_in = z3.Function("all_in", S, S, B)           # every character of the 1st string occurs in the 2nd
 all_in_wit = z3.Function("all_in_wit", S, S, I)
+joined = z3.Function("joined", S, Obj, S)         # sep.join(list of str)
+join_wit = z3.Function("join_wit", S, Obj, S, I)
 
 _attr_funcs: Dict[str, z3.FuncDeclRef] = {}
 
@@ -303,6 +305,27 @@ def base_axioms() -> List[z3.BoolRef]:
     ]
     for e in range(0, 19):
         ax.append(pow10(z3.IntVal(e)) == 10 ** e)
+    # a string contains each of its characters (theorem of the string theory, given as a hint)
+    ss = z3.Const("hs", S)
+    ax.append(z3.ForAll([ss, j], z3.Implies(z3.And(0 <= j, j < z3.Length(ss)),
+                                            z3.Contains(ss, z3.SubString(ss, j, 1))),
+                        patterns=[z3.SubString(ss, j, 1)]))
+    # theorems about all_in, given as hints: a character of a string is all_in that string; every
+    # character of sep.join(xs) comes from sep or from one of the xs
+    ax.append(z3.ForAll([ss, j], z3.Implies(z3.And(0 <= j, j < z3.Length(ss)), all_in(z3.SubString(ss, j, 1), ss)),
+                        patterns=[z3.SubString(ss, j, 1)]))
+    # all_in is closed under taking substrings
+    sz, spart, sa2 = z3.Consts("cz cp ca", S)
+    ax.append(z3.ForAll([sz, spart, sa2], z3.Implies(z3.And(all_in(sz, sa2), z3.Contains(sz, spart)), all_in(spart, sa2)),
+                        patterns=[z3.MultiPattern(all_in(sz, sa2), z3.Contains(sz, spart))]))
+    sp, al = z3.Consts("jsep jal", S)
+    jl = z3.Const("jlst", Obj)
+    jw_ = join_wit(sp, jl, al)
+    ax.append(z3.ForAll([sp, jl, al], z3.Implies(
+        z3.Not(all_in(joined(sp, jl), al)),
+        z3.Or(z3.And(llen(jl) > 1, z3.Not(all_in(sp, al))),
+              z3.And(0 <= jw_, jw_ < llen(jl), z3.Not(all_in(sval(lat(jl, jw_)), al))))),
+        patterns=[all_in(joined(sp, jl), al)]))
     # str(x) of a str is the str itself
     ax.append(z3.ForAll([o], z3.Implies(is_StrV(o), str_s(o) == sval(o)), patterns=[str_s(o)]))
     # list <-> sequence views (PathHolder contents): round trip, length and items
